@@ -79,6 +79,10 @@ structure State where
   selfJoined : List Nat := []
   /-- `Arbiter::new` targets with a `blocking` task -/
   blocked : List Nat := []
+  /-- `runner plain|block`: the System's runner is not run but dropped (without a stop) — which sends
+      nothing to any arbiter, so the witness schedules are the same -/
+  runnerMode : Bool := false
+  dropsys : Bool := false
   stopped : List Bool := []
   deriving Inhabited
 
@@ -545,10 +549,17 @@ def step (st : State) (line : String) : State × String :=
       if !st.entries.any (·.hasStop) then (st, "bad-op")
       else ({ st with done := true }, observeC09 st (m == "run") j log)
     | _, _ => (st, "bad-op")
+  | 10, ["runner", m] =>
+    if !(m == "plain" || m == "block") || st.runnerMode || st.host.isSome || st.narb > 0 || st.nlines > 0 then
+      (st, "bad-op")
+    else ({ st with runnerMode := true }, "ok")
+  | 10, ["dropsys"] =>
+    if !st.runnerMode || st.dropsys || st.narb == 0 || st.nlines ≥ maxLines then (st, "bad-op")
+    else ({ st with dropsys := true, nlines := st.nlines + 1 }, "ok")
   | 10, ["host", n, mode] =>
     match nat? n, (mode == "kept" || mode == "dropped") with
     | some n, true =>
-      if 1 ≤ n && n ≤ 3 && st.host.isNone && st.narb == 0 && st.nlines == 0 then
+      if 1 ≤ n && n ≤ 3 && st.host.isNone && st.narb == 0 && st.nlines == 0 && !st.runnerMode then
         ({ st with host := some (n, mode == "kept") }, "ok")
       else (st, "bad-op")
     | _, _ => (st, "bad-op")
@@ -556,7 +567,7 @@ def step (st : State) (line : String) : State × String :=
     if nreal st ≥ 2 || st.nlines > 0 then (st, "bad-op")
     else ({ st with narb := st.narb + 1, stopped := st.stopped ++ [false] }, s!"ok a{st.narb}")
   | 10, ["sysarb"] =>
-    if st.sysIdx.isSome || st.nlines > 0 then (st, "bad-op")
+    if st.sysIdx.isSome || st.nlines > 0 || st.runnerMode then (st, "bad-op")
     else ({ st with narb := st.narb + 1, sysIdx := some st.narb, stopped := st.stopped ++ [false] }, s!"ok a{st.narb}")
   | 10, ["spawn", a, via, kind] =>
     match nat? a, kindOk kind with
@@ -611,7 +622,7 @@ def step (st : State) (line : String) : State × String :=
     match nat? a, (w == "dir" || w == "sys") with
     | some a, true =>
       if a ≥ st.narb || st.sysIdx == some a || st.nlines ≥ maxLines || st.ntask + 2 > maxTasks
-          || st.lates.any (·.1 == a) || (w == "sys" && st.sysIdx.isSome) || st.selfJoined.contains a then (st, "bad-op")
+          || st.lates.any (·.1 == a) || (w == "sys" && (st.sysIdx.isSome || st.runnerMode)) || st.selfJoined.contains a then (st, "bad-op")
       else ({ st with nlines := st.nlines + 1, lates := st.lates ++ [(a, st.ntask)], ntask := st.ntask + 2,
                       taskArb := st.taskArb ++ [a, a], taskGate := st.taskGate ++ [none, none],
                       taskWaited := st.taskWaited ++ [false, false] }, s!"ok t{st.ntask} t{st.ntask + 1}")
@@ -623,7 +634,7 @@ def step (st : State) (line : String) : State × String :=
       else ({ st with done := true }, observeC10 st log)
     | none => (st, "bad-op")
   | 10, ["ident"] =>
-    if st.sysIdx.isSome || st.nlines > 0 then (st, "bad-op")
+    if st.sysIdx.isSome || st.nlines > 0 || st.runnerMode then (st, "bad-op")
     else ({ st with done := true }, identC10 st.narb st.host)
   | 10, ["sysids", t, r] =>
     match nat? t, nat? r with
